@@ -64,6 +64,11 @@ def distance(a, b):
         # d = | (q - p) * n |
         # where n is a vector orthogonal to both lines and with length 1!
         # We can achieve this by using the normalized cross product
+        if parallel(a, b):
+            # Parallel (or identical) lines have no such normal vector (the
+            # cross product is zero); every point of one line has the same
+            # distance to the other
+            return distance(Point(a.sv), b)
         normale = a.dv.cross(b.dv).normalized()
         return abs((b.sv - a.sv) * normale)
 
